@@ -7,6 +7,7 @@ CONSTANTS
   CookieAgeOverridesExp = FALSE
   AudienceIsUrlRoot = FALSE
   PreflightBypass = FALSE
+  SubjectFromUid = FALSE
 INIT Init
 NEXT Next
 INVARIANTS
